@@ -22,7 +22,8 @@ var Frac = map[string][]string{
 	"ws":       {" 0.5", "0.5 ", "0.5\n"},
 	"nan":      {"NaN", "nan", "NAN"},
 	"inf":      {"Inf", "+Inf", "-Inf"},
-	"ovf":      {"1e400", "-1e400", "1e-400"},
+	"ovf":      {"1e400", "1e999", "17e308"},
+	"udf":      {"1e-400", "1e-999", "0.1e-400"},
 	"u64":      {"9223372036854775808", "18446744073709551615", "9223372036854775809"},
 	"nonnum":   {"abc", "0,5", "0.5GPU"},
 }
@@ -33,39 +34,39 @@ var Mem = map[string][]string{
 	"empty":  {""},
 	"pos":    {"2500", "5000", "1000"},
 	"lead0":  {"02500", "005000", "0001000"},
-	"zero":   {"0", "00", "-0"},
+	"zero":   {"0", "00", "000"},
 	"neg":    {"-2500", "-1", "-5000"},
 	"exp":    {"25e2", "5E3", "1e3"},
 	"hex":    {"0x9C4", "0X1388", "0x3e8"},
 	"plus":   {"+2500", "+5000", "+1000"},
 	"ws":     {" 2500", "2500 ", "2500\n"},
 	"nan":    {"NaN", "nan", "Inf"},
-	"ovf":    {"18446744073709551616", "99999999999999999999", "-9223372036854775809"},
+	"ovf":    {"18446744073709551616", "99999999999999999999", "36893488147419103232"},
 	"u64":    {"9223372036854775808", "18446744073709551615", "9223372036854777856"},
 	"max64":  {"9223372036854775807", "4611686018427387904", "2147483648"},
 	"nonnum": {"abc", "2500Mi", "2_500"},
-	"dec":    {"2500.0", "0.5", "2500.5"},
+	"dec":    {"0.5", "2500.5", "1.25"},
 }
 
 // Dev: gpu-fraction-num-devices classes.
 var Dev = map[string][]string{
 	"absent": {Absent},
 	"empty":  {""},
-	"one":    {"1", "01", "1"},
+	"one":    {"1", "01", "001"},
 	"two":    {"2", "3", "02"},
-	"zero":   {"0", "00", "-0"},
+	"zero":   {"0", "00", "000"},
 	"neg":    {"-3", "-1", "-2"},
 	"exp":    {"2e0", "1E0", "2e1"},
 	"hex":    {"0x2", "0X1", "0x3"},
 	"plus":   {"+2", "+1", "+3"},
 	"ws":     {" 2", "2 ", "2\n"},
 	"nan":    {"NaN", "nan", "Inf"},
-	"ovf":    {"18446744073709551616", "99999999999999999999", "-9223372036854775809"},
+	"ovf":    {"18446744073709551616", "99999999999999999999", "36893488147419103232"},
 	"u64":    {"9223372036854775808", "18446744073709551615", "9223372036854775810"},
 	"max64":  {"9223372036854775807", "4611686018427387904", "2147483648"},
 	"huge":   {"1000", "65", "100000"},
 	"nonnum": {"abc", "two", "2x"},
-	"dec":    {"2.0", "1.5", "2.5"},
+	"dec":    {"1.5", "2.5", "0.5"},
 }
 
 // Pick returns variant k (mod the number of representatives) of a class; ok=false for unknown classes.
